@@ -186,6 +186,12 @@ package util
 //@   at-call ReadVarInt#1 as count
 //@   at-call ReadString#1 as first: assert [negative-count-rejected] res(count, 1) == nil && res(count, 0) >= 0
 //@   ensures [negative-count-rejected] called(count) && res(count, 1) == nil && res(count, 0) < 0 ==> err != nil
+//@   at-call ReadString#1 as nm
+//@   at-call ReadString#2 as val
+//@   at-call ReadBool as flag
+//@   at-call ReadString#3 as sig: assert [signature-only-if-flagged] called(flag) && res(flag, 1) == nil && res(flag, 0)
+//@   at-call append as add: assert [unsigned-property-has-empty-signature] called(flag) && res(flag, 1) == nil && (res(flag, 0) || len(signature) == 0)
+//@   at-call append as add2: assert [property-fields-are-what-was-read] streq(name, res(nm, 0)) && streq(value, res(val, 0)) && (res(flag, 0) ==> called(sig) && streq(signature, res(sig, 0)))
 //@ func ReadStringArray
 //@   props C03 C05
 //@   requires rwf(rd)
